@@ -195,7 +195,7 @@ def run(rep, tier, seed):
         rep.encoded("src/basilisp/lang/" + f, qs, "executed under CrossHair (pyrsistent / immutables cores run concretely)")
     rep.encoded_lisp("src/basilisp/core.lpy", ["conj", "assoc", "dissoc", "disj", "pop", "peek", "into", "empty", "with-meta", "merge", "transient", "persistent!"], "compiled from source")
     nops = 2 if quick else 3
-    to = 90 if quick else 240
+    to = 90 if quick else 150
     specs = []
     for kind in ("vector", "map", "set", "list", "queue"):
         big = {"vector": 34, "map": 4}.get(kind, 3)
